@@ -211,9 +211,41 @@ def named_pipes(report, paths, folder):
                 return
 
 
+def end_checks_under_limit(report, folder):
+    """
+    'Exits 0 if and only if every file is accepted by the programmatic API; --until N has the same effect as the API's
+    validation limit' -- for files whose only defect is one a check reports at the END of the data (DistinctCount), with limits
+    below, at and above the number of rows. The oracle is the API itself.
+    """
+    import cutplace
+    from cutplace import errors
+    cid_path = os.path.join(folder, "cid_end.csv")
+    write_table(cid_path, "csv", [["D", "Format", "delimited"], ["F", "id", "", "", "", "Integer"], ["F", "name"],
+                                  ["C", "few names", "DistinctCount", "name <= 2"], ["C", "some names", "DistinctCount", "name >= 1"]])
+    files = {"three names": [["1", "a"], ["2", "b"], ["3", "c"], ["4", "a"], ["5", "b"]],
+             "two names": [["1", "a"], ["2", "b"], ["3", "a"], ["4", "b"], ["5", "a"]],
+             "late third name": [["1", "a"], ["2", "b"], ["3", "a"], ["4", "b"], ["5", "c"]]}
+    for label, table in sorted(files.items()):
+        path = os.path.join(folder, "end_%s.csv" % label.replace(" ", "_"))
+        write_table(path, "csv", table)
+        for limit in (None, 0, 1, 2, 3, 4, 5, 6, 9):
+            try:
+                cutplace.validate(cid_path, path, validate_until=limit)
+                expected = 0
+            except errors.DataError:
+                expected = 1
+            argv = ["cutplace"] + ([] if limit is None else ["--until", str(limit)]) + [cid_path, path]
+            code = run_main(argv)
+            report.replayed += 1
+            if code != expected:
+                report.violation("c18", {"end_check": label, "until": limit}, expected, code,
+                                 "csv: cutplace %s <file with %s in 5 rows, checks: at most 2 and at least 1 distinct names> answers %r but "
+                                 "cutplace.validate() with the same limit says %r" % (" ".join(argv[1:-2]), label, code, expected))
+
+
 def replay(behaviour, report=None):
     core.import_repo()
-    if "api" in behaviour or "pipe" in behaviour:
+    if "api" in behaviour or "pipe" in behaviour or "end_check" in behaviour:
         return []
     folder = core.workdir("c18replay")
     try:
@@ -248,6 +280,7 @@ def run(tier, report):
             api_verdicts(report, paths, storage)
             if storage == "csv":
                 named_pipes(report, paths, os.path.join(folder, storage))
+                end_checks_under_limit(report, os.path.join(folder, storage))
             plain = [vec for vec in vectors if not vec.get("header")]   # (header rows: csv storage only, see Cli_header.cfg)
             chosen = vectors if storage == "csv" else (plain if tier == "thorough" else rng.sample(plain, 700))
             shapes = {}
